@@ -311,3 +311,297 @@ Qed.
 Lemma Forall2_map_eq {A B} (g : A -> B) (l1 l2 : list A) :
   Forall2 (fun a b => g a = g b) l1 l2 -> map g l1 = map g l2.
 Proof. induction 1; cbn; congruence. Qed.
+
+(* ------------------------------------------------------------------ more string facts *)
+
+Lemma has_lstrip c l : has c l = false -> has c (lstrip l) = false.
+Proof.
+  induction l as [|x t IH]; [reflexivity|]. intro H. cbn [lstrip].
+  destruct (is_space x); [|exact H].
+  cbn [has existsb] in H. apply orb_false_iff in H. apply IH. apply H.
+Qed.
+Lemma has_rstrip c l : has c l = false -> has c (rstrip l) = false.
+Proof.
+  induction l as [|x t IH]; [reflexivity|]. intro H.
+  cbn [has existsb] in H. apply orb_false_iff in H. destruct H as [Hx Ht].
+  cbn [rstrip]. specialize (IH Ht). destruct (rstrip t) as [|r0 r].
+  - destruct (is_space x); [reflexivity|]. cbn [has existsb]. rewrite Hx. reflexivity.
+  - cbn [has existsb] in IH |- *. rewrite Hx. exact IH.
+Qed.
+Lemma has_strip c l : has c l = false -> has c (strip l) = false.
+Proof. intro H. unfold strip. apply has_rstrip, has_lstrip, H. Qed.
+
+Lemma lstrip_head_nonspace l c t : lstrip l = c :: t -> is_space c = false.
+Proof.
+  induction l as [|x r IH]; [discriminate|]. cbn [lstrip].
+  destruct (is_space x) eqn:E; [exact IH|]. intro H. inversion H; subst. exact E.
+Qed.
+Lemma has_head c x t : has c (x :: t) = false -> Ascii.eqb x c = false.
+Proof. cbn [has existsb]. intro H. apply orb_false_iff in H. apply H. Qed.
+
+Lemma replace_q_id l : has ch_qmark l = false -> replace_q l = l.
+Proof.
+  induction l as [|x t IH]; [reflexivity|]. intro H.
+  cbn [has existsb] in H. apply orb_false_iff in H. destruct H as [Hx Ht].
+  unfold replace_q in *. cbn [flat_map]. rewrite Hx. cbn [app]. f_equal. apply IH. exact Ht.
+Qed.
+
+Lemma forallb_py_float l : forallb py_float_ok l = forallb is_float_lit (map fnorm l).
+Proof. induction l as [|x t IH]; [reflexivity|]. cbn [forallb map]. rewrite IH. reflexivity. Qed.
+
+Lemma Forall_map_first {A} (P : A -> Prop) f l :
+  (forall x, P x -> P (f x)) -> Forall P l -> Forall P (map_first f l).
+Proof. intros Hf H. destruct H; cbn; constructor; auto. Qed.
+Lemma Forall_map_last {A} (P : A -> Prop) f l :
+  (forall x, P x -> P (f x)) -> Forall P l -> Forall P (map_last f l).
+Proof.
+  intros Hf H. induction H as [|x t Hx Ht IH]; [constructor|].
+  destruct t as [|y t']; [constructor; auto|].
+  change (map_last f (x :: y :: t')) with (x :: map_last f (y :: t')). constructor; assumption.
+Qed.
+Lemma map_last_nonnil {A} (f : A -> A) l : l <> [] -> map_last f l <> [].
+Proof. destruct l as [|x [|y t]]; cbn; congruence. Qed.
+
+(* ------------------------------------------------------------------ what the theorems assume *)
+
+(* a value token as printed: blanks allowed around a literal float() accepts; none of , : ? @ *)
+Definition tok_ok (t : str) : Prop :=
+  has ch_comma t = false /\ has ch_colon t = false /\ has ch_qmark t = false /\
+  has ch_at t = false /\ blank t = false /\ py_float_ok t = true.
+(* a class value: non-empty, no white space, no ":" and no "?" *)
+Definition lab_ok (v : str) : Prop :=
+  v <> [] /\ nows v = true /\ has ch_colon v = false /\ has ch_qmark v = false.
+Definition row_ok (r : series) : Prop := r <> [] /\ Forall tok_ok r.
+
+Definition ends (toks : series) : series := map_last rstrip (map_first lstrip toks).
+
+Lemma last_in {A} (l : list A) d : l <> [] -> In (last l d) l.
+Proof.
+  induction l as [|a t IH]; [congruence|]. intros _.
+  destruct t as [|b t']; [left; reflexivity|]. right. apply IH. congruence.
+Qed.
+
+Lemma row_last_nonblank toks : row_ok toks -> blank (last (map_first lstrip toks) []) = false.
+Proof.
+  intros [Hne HF]. destruct toks as [|t0 rest]; [congruence|].
+  destruct rest as [|t1 rest'].
+  - cbn. rewrite blank_lstrip. inversion HF; subst. apply H1.
+  - rewrite last_map_first by (cbn; lia).
+    assert (Hin : In (last (t0 :: t1 :: rest') []) (t0 :: t1 :: rest')) by (apply last_in; congruence).
+    rewrite Forall_forall in HF. apply (HF _ Hin).
+Qed.
+
+Lemma strip_join_row toks : row_ok toks ->
+  strip (join ch_comma toks) = join ch_comma (ends toks).
+Proof.
+  intros Hr. pose proof Hr as [Hne HF]. destruct toks as [|t0 rest]; [congruence|].
+  unfold strip, ends. rewrite lstrip_join by (inversion HF; subst; apply H1).
+  apply rstrip_join; [cbn; congruence|]. apply row_last_nonblank. exact Hr.
+Qed.
+
+Lemma ends_fnorm toks : map fnorm (ends toks) = map fnorm toks.
+Proof.
+  apply Forall2_map_eq. unfold ends.
+  apply Forall2_trans_eq with (l2 := map_first lstrip toks).
+  - apply Forall2_map_last; [|reflexivity]. intro x. apply fnorm_strip_eq, strip_rstrip.
+  - apply Forall2_map_first; [|reflexivity]. intro x. apply fnorm_strip_eq, strip_lstrip.
+Qed.
+Lemma ends_nonnil toks : toks <> [] -> ends toks <> [].
+Proof. intro H. unfold ends. apply map_last_nonnil. destruct toks; cbn; congruence. Qed.
+Lemma ends_has c toks :
+  Forall (fun t => has c t = false) toks -> Forall (fun t => has c t = false) (ends toks).
+Proof.
+  intro H. unfold ends. apply Forall_map_last; [intro; apply has_rstrip|].
+  apply Forall_map_first; [intro; apply has_lstrip|exact H].
+Qed.
+
+Lemma row_has c toks : Ascii.eqb ch_comma c = false ->
+  Forall (fun t => has c t = false) toks -> has c (join ch_comma toks) = false.
+Proof. intros. apply has_join; assumption. Qed.
+
+Lemma tok_ok_forall toks : Forall tok_ok toks ->
+  Forall (fun t => has ch_comma t = false) toks /\ Forall (fun t => has ch_colon t = false) toks /\
+  Forall (fun t => has ch_qmark t = false) toks /\ Forall (fun t => has ch_at t = false) toks /\
+  forallb py_float_ok toks = true.
+Proof.
+  induction 1 as [|t r Ht Hr IH]; [repeat split; constructor|].
+  destruct Ht as (H1 & H2 & H3 & H4 & H5 & H6). destruct IH as (I1 & I2 & I3 & I4 & I5).
+  repeat split; try (constructor; assumption). cbn [forallb]. rewrite H6, I5. reflexivity.
+Qed.
+
+(* the one dimension of a written case, however it is embedded in the line *)
+Lemma row_parse toks d : row_ok toks ->
+  strip d = lower (strip (join ch_comma toks)) -> parse_dim d = Ok (map fnorm toks).
+Proof.
+  intros Hr Hd. pose proof Hr as [Hne HF].
+  destruct (tok_ok_forall toks HF) as (Hc & _ & _ & _ & Hf).
+  rewrite strip_join_row in Hd by exact Hr.
+  rewrite lower_join in Hd by reflexivity.
+  unfold parse_dim. rewrite Hd.
+  assert (Hne2 : map lower (ends toks) <> []).
+  { pose proof (ends_nonnil toks Hne). destruct (ends toks); cbn; congruence. }
+  assert (Hc2 : Forall (fun p => has ch_comma p = false) (map lower (ends toks))).
+  { apply Forall_forall. intros p Hp. apply in_map_iff in Hp. destruct Hp as [q [<- Hq]].
+    rewrite has_lower by apply eqb_lower_comma.
+    pose proof (ends_has ch_comma toks Hc) as He. rewrite Forall_forall in He. apply He. exact Hq. }
+  assert (Hnb : join ch_comma (map lower (ends toks)) <> []).
+  { rewrite <- lower_join by reflexivity. rewrite <- strip_join_row by exact Hr.
+    intro E. apply map_eq_nil in E. apply strip_nil in E.
+    destruct toks as [|t0 rest]; [congruence|]. rewrite blank_join_false in E; [discriminate|].
+    inversion HF; subst. apply H1. }
+  destruct (join ch_comma (map lower (ends toks))) as [|j0 jr] eqn:EJ; [congruence|].
+  rewrite <- EJ. rewrite split_on_join by assumption.
+  assert (Hm : map fnorm (map lower (ends toks)) = map fnorm toks).
+  { rewrite map_map. rewrite (map_ext _ fnorm) by (intro; apply fnorm_lower). apply ends_fnorm. }
+  rewrite forallb_py_float, Hm, <- forallb_py_float, Hf. reflexivity.
+Qed.
+
+Lemma row_head toks : row_ok toks -> exists c0 X,
+  lstrip (join ch_comma toks) = c0 :: X /\ is_space c0 = false /\ Ascii.eqb c0 ch_at = false.
+Proof.
+  intros [Hne HF]. destruct toks as [|t0 rest]; [congruence|].
+  inversion HF as [|? ? Ht0 _]; subst. destruct Ht0 as (_ & _ & _ & Hat & Hb & _).
+  rewrite join_cons, lstrip_app by exact Hb.
+  destruct (lstrip t0) as [|c0 X] eqn:E; [apply lstrip_nil in E; congruence|].
+  exists c0. eexists. split; [reflexivity|]. split; [eapply lstrip_head_nonspace; exact E|].
+  apply has_lstrip in Hat. rewrite E in Hat. eapply has_head. exact Hat.
+Qed.
+
+Lemma row_nonblank toks : row_ok toks -> blank (join ch_comma toks) = false.
+Proof.
+  intros [Hne HF]. destruct toks as [|t0 rest]; [congruence|].
+  apply blank_join_false. inversion HF; subst. apply H1.
+Qed.
+
+(* ------------------------------------------------------------------ one case line *)
+
+Lemma case_core_labelled toks v nd : row_ok toks -> lab_ok v -> nd = None \/ nd = Some 1 ->
+  case_core true nd (lower (lstrip (join ch_comma toks)) ++ ch_colon :: lower v) =
+  Ok (1, [map fnorm toks], Some (lower v)).
+Proof.
+  intros Hr (Hv1 & Hv2 & Hv3 & Hv4) Hnd. pose proof Hr as [Hne HF].
+  destruct (tok_ok_forall toks HF) as (_ & Hcol & _ & _ & _).
+  unfold case_core.
+  rewrite split_on_app.
+  2:{ rewrite has_lower by apply eqb_lower_colon. apply has_lstrip. apply row_has; [reflexivity|exact Hcol]. }
+  rewrite split_on_none by (rewrite has_lower by apply eqb_lower_colon; exact Hv3).
+  assert (Hnd' : match nd with Some n => n | None => len [lower (lstrip (join ch_comma toks)); lower v] - 1 end = 1)
+    by (destruct Hnd as [-> | ->]; reflexivity).
+  rewrite Hnd'. change (len [lower (lstrip (join ch_comma toks)); lower v] - 1) with 1.
+  change (negb (1 =? 1)) with false. cbn iota.
+  change (Z.to_nat 1) with 1%nat. cbn [firstn parse_dims nth_str nth].
+  rewrite (row_parse toks) by (try exact Hr; rewrite <- lower_strip, strip_lstrip; reflexivity).
+  cbn [rcons]. rewrite strip_nows by (rewrite nows_lower; exact Hv2). reflexivity.
+Qed.
+
+Lemma case_core_unlabelled toks nd : row_ok toks -> nd = None \/ nd = Some 1 ->
+  case_core false nd (lower (strip (join ch_comma toks))) = Ok (1, [map fnorm toks], None).
+Proof.
+  intros Hr Hnd. pose proof Hr as [Hne HF].
+  destruct (tok_ok_forall toks HF) as (_ & Hcol & _ & _ & _).
+  unfold case_core.
+  rewrite split_on_none.
+  2:{ rewrite has_lower by apply eqb_lower_colon. apply has_strip. apply row_has; [reflexivity|exact Hcol]. }
+  assert (Hnd' : match nd with Some n => n | None => len [lower (strip (join ch_comma toks))] - 0 end = 1)
+    by (destruct Hnd as [-> | ->]; reflexivity).
+  rewrite Hnd'. change (len [lower (strip (join ch_comma toks))] - 0) with 1.
+  change (negb (1 =? 1)) with false. cbn iota.
+  change (Z.to_nat 1) with 1%nat. cbn [firstn parse_dims].
+  rewrite (row_parse toks) by (try exact Hr; rewrite <- lower_strip, strip_idem; reflexivity).
+  reflexivity.
+Qed.
+
+(* normal form of a written case line *)
+Lemma norm_case_labelled toks v : row_ok toks -> lab_ok v ->
+  lower (strip (case_line true toks (Some v))) =
+  lower (lstrip (join ch_comma toks)) ++ ch_colon :: lower v.
+Proof.
+  intros Hr (Hv1 & Hv2 & Hv3 & Hv4). unfold case_line. cbn [app].
+  unfold strip. rewrite lstrip_app by (apply row_nonblank; exact Hr).
+  assert (Hb : blank (ch_colon :: v) = false) by reflexivity.
+  rewrite rstrip_app by exact Hb.
+  rewrite rstrip_nonspace by reflexivity. rewrite rstrip_nows by exact Hv2.
+  rewrite lower_app. reflexivity.
+Qed.
+Lemma norm_case_unlabelled toks : row_ok toks ->
+  lower (strip (case_line true toks None)) = lower (strip (join ch_comma toks)).
+Proof. intros Hr. unfold case_line. cbn [app]. rewrite app_nil_r. reflexivity. Qed.
+
+(* a normalised line whose first character is not "@" is a case line once @data was seen, and is
+   skipped before *)
+Lemma startswith_at p c rest :
+  Ascii.eqb c ch_at = false -> startswith (ch_at :: p) (c :: rest) = false.
+Proof. intro H. cbn [startswith]. rewrite Ascii.eqb_sym, H. reflexivity. Qed.
+
+Lemma ts_step_not_tag s raw c rest :
+  lower (strip raw) = c :: rest -> Ascii.eqb c ch_at = false ->
+  ts_step s raw = if data_started s then data_line s (c :: rest) else Ok s.
+Proof.
+  intros H Hc. unfold ts_step. rewrite H.
+  change tag_problemname with (ch_at :: L "problemname").
+  change tag_timestamps with (ch_at :: L "timestamps").
+  change tag_univariate with (ch_at :: L "univariate").
+  change tag_classlabel with (ch_at :: L "classlabel").
+  change tag_data with (ch_at :: L "data").
+  rewrite !startswith_at by exact Hc. reflexivity.
+Qed.
+Lemma ts_step_blank s raw : blank raw = true -> ts_step s raw = Ok s.
+Proof.
+  intro H. unfold ts_step. apply strip_nil in H. rewrite H. reflexivity.
+Qed.
+
+(* the parser state after a complete header of a non-timestamped file *)
+Definition dstate (cl : bool) (cll : list str) (nd : option Z) (rows : list row) (cvs : list str)
+  : pstate := mkP true true true true true true true (Some false) (Some cl) cll nd rows cvs.
+
+Lemma step_case_labelled cll nd rows cvs toks v :
+  row_ok toks -> lab_ok v -> nd = None \/ nd = Some 1 ->
+  ts_step (dstate true cll nd rows cvs) (case_line true toks (Some v)) =
+  Ok (dstate true cll (Some 1) ([map fnorm toks] :: rows) (lower v :: cvs)).
+Proof.
+  intros Hr Hv Hnd. pose proof (norm_case_labelled toks v Hr Hv) as Hn.
+  destruct (row_head toks Hr) as (c0 & X & HX & Hsp & Hat).
+  set (line := lower (lstrip (join ch_comma toks)) ++ ch_colon :: lower v) in *.
+  assert (Hl : line = lower_c c0 :: (lower X ++ ch_colon :: lower v)).
+  { unfold line. rewrite HX. reflexivity. }
+  rewrite (ts_step_not_tag _ _ (lower_c c0) (lower X ++ ch_colon :: lower v)).
+  2:{ rewrite Hn. exact Hl. }
+  2:{ rewrite eqb_lower_at. exact Hat. }
+  rewrite <- Hl.
+  unfold data_line, dstate.
+  cbn [data_started full_metadata has_pn has_ts has_uv has_cl has_data timestamps class_labels
+       num_dims andb negb].
+  assert (Hq : has ch_qmark line = false).
+  { unfold line. rewrite has_app. pose proof Hr as [_ HF].
+    destruct (tok_ok_forall toks HF) as (_ & _ & Hqm & _ & _).
+    rewrite has_lower by apply eqb_lower_qmark.
+    rewrite has_lstrip by (apply row_has; [reflexivity|exact Hqm]).
+    cbn [orb has existsb]. destruct Hv as (_ & _ & _ & Hv4).
+    change (existsb (fun x => Ascii.eqb x ch_qmark) (lower v)) with (has ch_qmark (lower v)).
+    rewrite has_lower by apply eqb_lower_qmark. rewrite Hv4. reflexivity. }
+  rewrite replace_q_id by exact Hq. unfold line.
+  rewrite case_core_labelled by assumption. reflexivity.
+Qed.
+
+Lemma step_case_unlabelled cll nd rows cvs toks :
+  row_ok toks -> nd = None \/ nd = Some 1 ->
+  ts_step (dstate false cll nd rows cvs) (case_line true toks None) =
+  Ok (dstate false cll (Some 1) ([map fnorm toks] :: rows) cvs).
+Proof.
+  intros Hr Hnd. pose proof (norm_case_unlabelled toks Hr) as Hn.
+  destruct (row_head toks Hr) as (c0 & X & HX & Hsp & Hat).
+  set (line := lower (strip (join ch_comma toks))) in *.
+  assert (Hl : line = lower_c c0 :: lower (rstrip X)).
+  { unfold line, strip. rewrite HX. rewrite rstrip_nonspace by exact Hsp. reflexivity. }
+  rewrite (ts_step_not_tag _ _ (lower_c c0) (lower (rstrip X))).
+  2:{ rewrite Hn. exact Hl. }
+  2:{ rewrite eqb_lower_at. exact Hat. }
+  rewrite <- Hl.
+  unfold data_line, dstate.
+  cbn [data_started full_metadata has_pn has_ts has_uv has_cl has_data timestamps class_labels
+       num_dims andb negb].
+  rewrite replace_q_id.
+  2:{ unfold line. rewrite has_lower by apply eqb_lower_qmark. apply has_strip. pose proof Hr as [_ HF].
+      destruct (tok_ok_forall toks HF) as (_ & _ & Hqm & _ & _). apply row_has; [reflexivity|exact Hqm]. }
+  unfold line. rewrite case_core_unlabelled by assumption. reflexivity.
+Qed.
